@@ -8,6 +8,7 @@ import (
 	"sort"
 	"testing"
 
+	"verifharness/appsys"
 	"verifharness/sysrun"
 	"verifharness/vh"
 )
@@ -15,6 +16,11 @@ import (
 func TestCheck(t *testing.T) {
 	env := vh.GetEnv()
 	run := vh.NewRun(env, "AM.Run.C01Run")
+	// app engine: the REAL application wiring (package app) in real time, in its own process; reports through run.
+	// true = the replay file held an app-engine case and has been handled.
+	if appsys.Part(t, env, run, "C01") {
+		return
+	}
 	// second part: ONE case per scenario for the instance model (routing + grouping + all group machines on one
 	// clock); a published alert is a single event and the model decides which groups receive it
 	runI := vh.NewRun(env, "AM.Run.InstRun")
